@@ -164,6 +164,24 @@ def configure(eng):
     eng.hooks['method'] = method
 
     def opaque_method(e, obj, name, args, kwargs, st, node):
+        if isinstance(obj, VOpaque) and 'has' in st.ghost and name == 'clear' and 'cache_cleared' not in st.ghost:
+            has = st.ghost['has'].t
+            st.ghost['has'] = VArr(z3.Store(has, obj.t, z3.K(Obj, z3.BoolVal(False))))
+            return [(st, NONE)]
+        if isinstance(obj, VOpaque) and 'has' in st.ghost and name == 'pop' and len(args) == 2:
+            k = e.as_obj(args[0])
+            outs = []
+            for s2, present in e.branch(st, z3.Select(z3.Select(st.ghost['has'].t, obj.t), k), 'dict.pop'):
+                if present:
+                    v = VOpaque(z3.Select(z3.Select(s2.ghost['mem'].t, obj.t), k), nonnull=True)
+                    h2 = s2.ghost['has'].t
+                    s2.ghost['has'] = VArr(z3.Store(h2, obj.t, z3.Store(z3.Select(h2, obj.t), k, False)))
+                    outs.append((s2, v))
+                else:
+                    outs.append((s2, args[1]))
+            return outs
+        if isinstance(obj, VOpaque) and 'has' in st.ghost and name in ('pop', 'popitem', 'update', 'setdefault'):
+            raise Refuse(f"dict.{name} on a modelled dictionary is not interpreted")
         if name == 'get' and isinstance(obj, VOpaque) and 'has' in st.ghost and len(args) == 2:
             k = e.as_obj(args[0])
             has = z3.Select(z3.Select(st.ghost['has'].t, obj.t), k)
@@ -183,4 +201,4 @@ def configure(eng):
             st.ghost['fresh_dicts'] = st.ghost.get('fresh_dicts', lift(0)) + 1
         return d
     eng.hooks['new_dict'] = new_dict
-    eng.opaque_methods |= {'get', 'keys', 'items', 'values'}
+    eng.opaque_methods |= {'get', 'keys', 'items', 'values', 'pop', 'popitem', 'setdefault'}
